@@ -87,9 +87,9 @@ CHECKS = {
             "the emitted shift sequences under exactly the guards the code checks (64- and 32-bit); store->load forwarding is sound only for 64-bit memory types; "
             "extension-chain rewrites of copy_prop for every width/sign pair; the overlap test of alloca_mem_intersect_p and may_alias_p (translated expressions) "
             "meet their specifications; out-of-SSA: the copy form implements the parallel phi assignment for every phi list and the rename shortcut is sound exactly "
-            "under the condition the code checks; LICM hoists only pure opcodes and neither dead-code eliminator deletes an effect (opcode lists translated from the source). "
+            "under the condition the code checks; LICM hoists only pure opcodes and neither dead-code eliminator deletes an effect (opcode lists translated from the source); the x86 immediate-range predicates are sound and every row of the x86 pattern table (729 rows, regenerated after gcc -E) places operands only into encoding fields that can carry what its constraint admits; constant chains combine as the pinned expressions say. "
             "The rest of the pipeline (SSA construction, RA, combine, encoder) is decided by running random well-defined programs (any CFG incl. irreducible loops, "
-            "switch and jmpi, inner loops with swapped/rotated carried registers and guarded invariant divisions, memory operands, overlapping accesses, alloca, overflow insns, calls) "
+            "switch and jmpi, inner loops with swapped/rotated carried registers, guarded invariant divisions and loop-carried pointers, memory operands, overlapping and alias-annotated accesses, ADDR of registers, long double code, alloca, overflow insns, calls, high register pressure) "
             "and a compare-and-branch operand-shape sweep under MIR_interp, the interp C interface and MIR_gen -O0..-O3, comparing results, buffer and call log.",
             TB + " Partial: the unmodelled passes are only exercised.", "4 C01"),
     "C06": ("proof", "Lean 4 simulation proofs (callee placement, va_start/va_arg walk, frame arithmetic) over tables extracted from mir-gen-x86_64.c + assembly trampoline correspondence",
